@@ -39,11 +39,13 @@ CHECKS['C15'] = {
 
 CHECKS['C16'] = {
     'level': 'exploration',
-    'text': ('Seeded search over histories and thread interleavings against the oracle "the same operation alone in a pristine interpreter" (a forked copy of a harness process '
-             'that never runs a query). Part A: histories of 1-6 operations through query_table, engine.query, query_csv, query_dataframe and the in-process CLI, mixing successes '
+    'text': ('Seeded search over histories and thread interleavings against the oracle "the same operation alone in a fresh interpreter" (executed in a fork of a separately started bare '
+             'python process that has imported rbql and nothing else; operations that need pandas use a fork of the harness process, which never runs a query itself). Part A: histories of 1-6 operations through query_table, engine.query, query_csv, query_dataframe and the in-process CLI, mixing successes '
              'of every kind with parse, syntax, runtime and IO failures, plus the module-level debug flags after every operation. Part B: 2-3 queries of different kinds over tables '
              'of <= 4 records in real threads under a baton scheduler; the seeded picks list decides who runs at every get_record / write / set_header / finish / registry call and, '
-             'in a fraction of runs, at every N-th source line of rbql_engine. Sampling of schedules, not exhaustive enumeration.'),
+             'in a fraction of runs, at every N-th source line of rbql_engine; a small fraction of pairs is enumerated exhaustively (every interleaving of the seam steps of two '
+             'one-record queries). A schedule in which nobody can move any more (a lock held across scheduling points) is reported as a violation. Interpreter-wide state (signal '
+             'handlers, sys.path, digit limit, locale, warning filters, ...) is compared before and after. Otherwise sampling of schedules.'),
     'design_ref': 'DESIGN.md 3.5',
     'note': ('Trusted: the tree run alone as reference (self-differential), fork() giving an identical pristine interpreter. Pre-emption granularity: seam calls and source lines, '
              'not bytecodes. Python engine only (the JS module-global context is a documented limitation outside the claim).'),
@@ -53,8 +55,8 @@ CHECKS['C16'] = {
 CHECKS['C02'] = {
     'level': 'exploration',
     'text': ('Seeded search over (query, producer) pairs with the record producer and the output writer behind the simulator: finite tables, endless generators (dense, sparse, periodic) '
-             'and producers that stall without EOF. Decides the consumption / termination clause at the iterator seam: a bounded non-buffering query may pull no more records than the '
-             'unbounded run had pulled when it wrote its n-th output, so it terminates on endless and stalled input; TOP/LIMIT output equals the first n records of the unbounded run. '
+             'and producers that stall without EOF. Decides the consumption / termination clause at the iterator seam: a bounded non-buffering query may pull no more records than its first n outputs need (the smallest input prefix over '
+             'which the unbounded query already yields n outputs), so it terminates on endless and stalled input; TOP/LIMIT output equals the first n records of the unbounded run. '
              'As a by-product the recorded finite histories are compared with a sort/dedup/truncate model (ties in input order, DESC = reverse, DISTINCT first occurrence, DISTINCT COUNT). '
              'Both the Python engine and rbql.js (through the Node driver) are executed. Sampling, not proof.'),
     'design_ref': 'DESIGN.md 3.1',
